@@ -8,6 +8,7 @@ import (
 	"github.com/filecoin-project/go-data-transfer/v2/message"
 
 	"verif/doubles"
+	"verif/l1chan"
 	"verif/mc"
 )
 
@@ -85,6 +86,10 @@ func c11(x *mc.Cell, r Role, depth int) {
 					}
 					if livePause(before.Status) && ownA != val {
 						x.Violate("C11", sig("not-applied-in-live-status"), ctx, rep)
+					}
+					// a resume by a party that IS paused is never meaningless while the channel is alive: the view must follow it
+					if !val && ownB && !(fin && !actsOnInit) && ownA && l1chan.ResumeMeaningful(actsOnInit, before.Status) {
+						x.Violate("C11", sig("resume-of-a-paused-party-ignored"), "the party was paused and resumed while it could still move data, but its flag is still set: "+ctx, rep)
 					}
 					// nothing else changes (status may change only by the Finalizing release)
 					bb, aa := before, after
